@@ -19,7 +19,7 @@ EXPLANATION = (
     'symbolic integer in -1..100000. Symbolic: op_a, class_a, code_a for every planned fault (quick: up to 2 faults, '
     '1..3 statements; thorough: 2 faults everywhere, and 3 faults for the one-statement transaction with the first '
     'fault at its statement). Oracle (written from the property text, not from the module\'s tuples): the '
-    'attempt is retried iff (Operational and code in {1040,1213,2003,2013}) or (Internal and code = 1205), otherwise '
+    'attempt is retried iff (Operational and code in {1040,1205,1213,2003,2013}) or (Internal and code = 1205) - deadlock, lock wait timeout, lost connection, cannot connect, too many connections in the classes PyMySQL reports them with (1.x: all OperationalError; < 0.10: 1205 as InternalError), otherwise '
     'that very exception object is raised at once; the committed store is unchanged whenever an attempt begins and '
     'after a raised error, and equals initial + the writes exactly once after success; one back-off call per retry '
     'with tries 1,2,..; every acquired connection is released; read_only selects START TRANSACTION READ ONLY. Only '
